@@ -161,8 +161,11 @@ def run_calls(name: str, bounds, prec, rem, bs: int, seed: int, ncalls: int, rng
                     sel.append(ranks[hit[0]] if hit else -7)
                 events.append({"e": "select", "cls": name, "bs": bs, "preds": ranks, "sel": sel,
                                "fitsame": spy.get("fit", ("", ()))[0] == sha(keep_p, keep_l), "predictsame": True, "seed": seed, "kw": _kw(kw)})
-            # the calibrator appends the batch and its losses
-            if out.ndim == 2 and out.shape[1] == pts.shape[1]:
+            # the calibrator appends the batch and its losses - or (a sampler object reused on another history, losses recomputed)
+            # the next call sees a different history of the very same shape
+            if c % 2 == 1 and name not in ("ParticleSwarmSampler",):
+                pts, losses = history(space, len(pts), rng, False)
+            elif out.ndim == 2 and out.shape[1] == pts.shape[1]:
                 pts = np.vstack([pts, out])
                 losses = np.concatenate([losses, [rng.choice([0.5, 1.0, 2.0, 0.125]) for _ in range(len(out))]])
     return events
